@@ -60,7 +60,7 @@ func (d *PathDecoder) decodeWriteOnlyAttributesForBody(body hcl.Body, bodySchema
 
 			for _, attr := range blockContent.Attributes {
 				attrSchema, ok := mergedSchema.Attributes[attr.Name]
-				if ok && attrSchema.IsWriteOnly {
+				if ok && attrSchema.IsWriteOnly && len(block.Labels) > 0 {
 
 					woAttrs = append(woAttrs, WriteOnlyAttribute{
 						Name:     attr.Name,
